@@ -34,7 +34,7 @@ use itertools::Itertools;
 use std::collections::{HashMap, HashSet};
 use std::ops::Deref;
 use std::path::PathBuf;
-use std::sync::{Arc, Mutex};
+use std::sync::Arc;
 
 #[derive(Clone)]
 pub struct CodegenOptions {
@@ -1476,7 +1476,7 @@ impl CodegenContext {
         function: F,
     ) {
         self.functions
-            .insert(name.into(), Arc::new(Mutex::new(function)));
+            .insert(name.into(), Arc::new(function));
     }
 
     fn register_default_fns(&mut self) {
@@ -1487,7 +1487,7 @@ impl CodegenContext {
             }
 
             fn apply(
-                &mut self,
+                &self,
                 ctx: &Evaluator,
                 args: &[&Located<Expression>],
             ) -> EvaluationResult<Option<SymbolData>> {
